@@ -80,7 +80,10 @@ class CollectSuite(Suite):
                         row[1] = rng.choice(ext)
             yield {"groups": groups, "pil": pil, "mode": mode, "level": rng.choice(["1/100", "1/100", "1/20", "1/2"]),
                    "counts_set": rng.random() < 0.8, "suppress": rng.random() < 0.5,
-                   "valid_index": rng.random() < 0.95}
+                   "valid_index": rng.random() < 0.95,
+                   # a fifth of the groupings are what is left of a larger, already indexed collection after groups were dropped from
+                   # outside and the object was re-indexed (the dropped proteins still occur in peptides)
+                   "curated_from": rng.sample([["UNKNOWN1"], ["UNKNOWN2", "P_DROPPED"], ["CON__K"]], rng.randint(1, 3)) if rng.random() < 0.2 else None}
 
     def impl(self, case):
         from picked_group_fdr import fdr
@@ -90,6 +93,10 @@ class CollectSuite(Suite):
         st = ProteinScoringStrategy(desc)
         pil = {e: (float(Fraction(sc)), list(ps)) for e, sc, ps in case["pil"]}
         pg = ProteinGroups.init_from_list([list(g) for g in case["groups"]])
+        if case.get("curated_from"):
+            pg = ProteinGroups.init_from_list([list(g) for g in case["curated_from"]] + [list(g) for g in case["groups"]])
+            pg.protein_groups = [list(g) for g in case["groups"]]
+            pg.create_index()
         if not case["valid_index"]:
             pg.append([])
         recorded = []
